@@ -2,6 +2,7 @@ import Liquid.Render
 import Liquid.Sprint
 import Liquid.Call
 import Liquid.Filters.Num
+import Liquid.Filters.StrGlue
 /-!
 # The standard configuration: concrete `Prims` / `OutPrims` assembled from the value layer
 -/
@@ -30,7 +31,7 @@ def stdOut : OutPrims := { chunks := stdChunks }
 def cmpStub (_ _ : GoVal) : Res Cause Bool := .unmodelled "comparison model not linked"
 
 /-- every modelled filter body; each `Filters/*.lean` file contributes its `impls` list here -/
-def stdFilterImpls : List (Bytes × FilterImpl) := Num.impls
+def stdFilterImpls : List (Bytes × FilterImpl) := Num.impls ++ StrGlue.impls
 
 def stdPrims : Prims :=
   { equal := cmpStub, less := cmpStub, contains := cmpStub, equalFn := cmpStub,
